@@ -5,6 +5,7 @@ from core import (norm, L_call, L_variant, arms, assigns_to_return, closure_arg_
 from mir import op_place
 import c11
 import seqmodel
+from core import atoms as core_atoms
 
 META = {
     "thorough_extra": ["client-only", "tls"],
@@ -192,32 +193,124 @@ def C16_3(ctx, facts):
                           "removal order on this edge is %s" % order, f.where(a))
 
 
+def _port_fns(facts):
+    """The method(s) of SocketAddrs that apply a port: the ones from which `SocketAddr::set_port` is called (closures included)."""
+    out = []
+    for g in facts.fns.values():
+        if not re.match(r"^client::conn::dns::SocketAddrs::\w+$", g.nkey):
+            continue
+        bodies = [g] + [h for h in facts.fns.values() if h.key.startswith(g.key + "::{closure")]
+        if any(c.matches(r"SocketAddr::set_port$") for b in bodies for c in b.calls()):
+            out.append(g)
+    return out
+
+
+def _ported(elem, port):
+    while elem is not None and elem[0] == "refval":
+        elem = elem[1]
+    return ("variant", "WithPort", ((0, elem), (1, port)))
+
+
+def port_table(ctx, facts, P):
+    """The port-applying method as a table over the sequence model: for every list up to three addresses the list afterwards
+    (in place through `&mut self`, or the returned one) holds the same addresses in the same order, each with the port set."""
+    import inline
+    import candloop
+    from core import deref_value
+    u = inline.inline(facts, P, 3, lambda ck, raw: "::_::" not in ck, expand=True)
+    ctx.touched(u)
+    by_ref = u.locals[1].startswith("&")
+    PORT = ("const", "PORT")
+
+    def o_set_port(ev, st, t, site):
+        a0 = seqmodel._arg(ev, st, t, 0)
+        port = deref_value(st, seqmodel._arg(ev, st, t, 1))
+        if a0 is None or port is None:
+            return False
+        cur = deref_value(st, a0)
+        if cur is None:
+            return False
+        nv = _ported(cur, port)
+        if a0[0] == "elemref":
+            l = st.get(-a0[1])
+            if l is None or a0[2] >= len(l[1]):
+                return False
+            st[-a0[1]] = ("list", l[1][:a0[2]] + (nv,) + l[1][a0[2] + 1:])
+        elif a0[0] == "refmut":
+            st[a0[1]] = nv
+        elif a0[0] == "pref":
+            ev._store(st, {"l": a0[1], "p": [{"f": f} for f in a0[2]]}, nv)
+        else:
+            return False
+        return seqmodel._set_dest(st, t, seqmodel.tup())
+    raw = [(r"SocketAddr::set_port$", o_set_port)] + seqmodel.RAW_ORACLES + candloop.EXTRA_RAW + seqmodel.OPTION_ORACLES
+    rows = 0
+    for n in range(0, 4):
+        key = "%s|port-table|addresses=%d" % (P.nkey.split("::")[-1], n)
+        elems = tuple(("const", "a#%d" % i) for i in range(n))
+        this = ("variant", "SocketAddrs", ((0, ("seq", 1)),))
+        st = {1: ("refmut", 9300) if by_ref else this, 9300: this, 2: PORT, -1: ("list", elems), -1000: ("const", "10")}
+
+        def lists(st_):
+            return tuple(sorted((k, v) for k, v in st_.items() if isinstance(k, int) and -1000 < k < 0 and v is not None and v[0] == "list"))
+
+        def selfv(st_):
+            return st_.get(9300)
+        try:
+            outs = AbsPaths(u, limit=8000, raw_oracles=raw, oracles=[INT_CMP, VALUE_EQ]).outcomes(state=st, extra_keys=(lists, selfv))
+        except AbsPaths.Undecided as e:
+            ctx.undecided(key, str(e))
+            continue
+        rows += 1
+        want = tuple(_ported(e, PORT) for e in elems)
+        got = []
+        for o in outs:
+            ls = dict(o[2][0]) if o[2][0] is not None else {}
+            v = o[2][1] if by_ref else o[0]
+            sq = dict(v[2]).get(0) if v is not None and v[0] == "variant" and v[1] == "SocketAddrs" else None
+            l = ls.get(-sq[1]) if sq is not None and sq[0] == "seq" else None
+            got.append(l[1] if l is not None else None)
+        show = lambda xs: [None if x is None else ["%s:%s" % (dict(e[2])[0][1], dict(e[2])[1][1]) if e is not None and e[0] == "variant" and e[1] == "WithPort" else (e[1] if e is not None and e[0] == "const" else "?") for e in x] for x in xs]
+        ctx.check(got == [want], key, "%d address(es): afterwards the list holds the same addresses in the same order, each with the port set" % n,
+                  "%d address(es): the list afterwards can be %s, expected %s (every address, in order, with the port applied)" % (n, show(got), show([want])), u.where())
+    ctx.floor("%s|port-table-rows" % P.nkey.split("::")[-1], rows, 4, "list lengths evaluated")
+    return by_ref
+
+
 def C16_4_5(ctx, facts):
-    sp = facts.unit(facts.fn("client::conn::dns::SocketAddrs::set_port"))
-    ctx.touched(sp)
-    it = [c for c in sp.calls() if c.matches(r"IntoIterator.*::into_iter$|VecDeque.*::iter_mut$")]
-    st = [c for c in sp.calls() if c.matches(r"SocketAddr::set_port$")]
-    ctx.check(len(it) >= 1 and len(st) == 1, "set_port|loop", "set_port iterates the whole list and sets the port of each element", "set_port does not iterate all elements")
-    for c in st:
-        rr = sp.roots(c.args[1], through_calls=False)
-        ctx.check(any(r.kind == "arg" and r.desc == "port" for r in rr), "set_port|value", "the port written is the parameter", "port roots %s" % sorted(map(repr, rr)), c.where())
-        r0 = sp.roots(c.args[0])
-        ctx.check(any(r.kind == "call" and r.site.matches(r"Iterator.*::next$|IterMut.*::next$") for r in r0), "set_port|each-element", "it is applied to the element yielded by the iterator", "set_port target roots %s" % sorted(map(repr, sig(r0))), c.where())
-    f = facts.unit(facts.fn("client::conn::transport::tcp::TcpTransport::connect::{closure#0}"), expand=True)
+    import inline
+    ps = _port_fns(facts)
+    ctx.floor("SocketAddrs|port-method", len(ps), 1, "method of SocketAddrs that applies a port (calls SocketAddr::set_port)")
+    if len(ps) != 1:
+        return ctx.check(False, "SocketAddrs|port-method|unique", "one method applies the port", "%d methods of SocketAddrs call SocketAddr::set_port: %s" % (len(ps), [g.nkey for g in ps]))
+    P = ps[0]
+    by_ref = port_table(ctx, facts, P)
+    cf = facts.fn("client::conn::transport::tcp::TcpTransport::connect::{closure#0}")
+    at = core_atoms()
+    f = inline.inline(facts, cf, 3, lambda ck, raw: "::_::" not in ck and norm(ck) != P.nkey and norm(ck) not in at and not (raw.get("impl_trait") and raw["impl_trait"].split("::")[-1] not in ("From", "TryFrom", "Into", "TryInto", "FromStr", "Default")), expand=True)
     ctx.touched(f)
-    spc = f.calls("client::conn::dns::SocketAddrs::set_port")
+    spc = f.calls(P.nkey)
     cg = f.calls("client::conn::transport::tcp::TcpTransport::connecting")
-    ctx.floor("TcpTransport::connect|set_port", len(spc), 1, "set_port call")
+    ctx.floor("TcpTransport::connect|set_port", len(spc), 1, "call of the port-applying method")
     ctx.floor("TcpTransport::connect|connecting", len(cg), 1, "connecting call")
+    is_resolve = lambda r: r.kind == "call" and (r.site.is_("client::conn::transport::tcp::TcpTransport::resolve") or "resolve" in norm(r.site.name))
     for c in cg:
-        ok, w = f.must_pass(0, [c.bb], {x.bb for x in spc})
-        ctx.check(ok, "TcpTransport::connect|port-before-attempts", "the port is applied to the resolved addresses before the attempts are built", "attempts can be built without set_port", c.where(), f.path_desc(w))
+        if by_ref:
+            ok, w = f.must_pass(0, [c.bb], {x.bb for x in spc})
+            ctx.check(ok, "TcpTransport::connect|port-before-attempts", "the port is applied to the resolved addresses before the attempts are built", "attempts can be built without the port having been applied", c.where(), f.path_desc(w))
+        else:
+            r0 = f.roots(c.args[1], through_calls=False)
+            ok = bool(r0) and all(r.kind == "call" and r.site.is_(P.nkey) for r in r0)
+            ctx.check(ok, "TcpTransport::connect|port-before-attempts", "the list the attempts are built from is the result of the port-applying method", "the attempts are built from %s" % sorted(map(repr, sig(r0)))[:4], c.where())
         rr = f.roots(c.args[1], through_calls=True)
-        ctx.check(any(r.kind == "call" and r.site.is_("client::conn::transport::tcp::TcpTransport::resolve") or (r.kind == "call" and "resolve" in norm(r.site.name)) for r in rr),
+        ctx.check(any(is_resolve(r) for r in rr),
                   "TcpTransport::connect|addresses-from-resolver", "the addresses are the resolver's answer", "address roots %s" % sorted(map(repr, sig(rr)))[:5], c.where())
     for c in spc:
         rr = f.roots(c.args[1])
         ctx.check(any(("port" in r.desc) for r in rr if r.kind in ("arg", "upvar")), "TcpTransport::connect|port-arg", "the port applied is connect()'s port argument", "port roots %s" % sorted(map(repr, sig(rr))), c.where())
+        if not by_ref:
+            ra = f.roots(c.args[0], through_calls=True)
+            ctx.check(any(is_resolve(r) for r in ra), "TcpTransport::connect|port-on-resolved", "the port is applied to the resolver's answer", "the port-applying method receives %s" % sorted(map(repr, sig(ra)))[:4], c.where())
     call = facts.unit(facts.method("client::conn::transport::tcp::TcpTransport", "Service", "call"))
     gh = call.calls("client::conn::transport::tcp::get_host_and_port")
     ctx.floor("TcpTransport::call|get_host_and_port", len(gh), 1, "get_host_and_port(uri)")
